@@ -38,3 +38,12 @@ Definition c02_moving_lib_statement : Prop :=
     f_new (c_filter cfg) = true -> f_undo (c_filter cfg) = true -> f_irr (c_filter cfg) = true ->
     moving_scope_b r0 h = true ->
     c02_statement cfg m h.
+
+(* discovery mode (hold-until-LIB): the first announcement is the discovered LIB block itself (the root
+   announcement), which need not be on the consumer's stack *)
+Definition c02_discovery_statement : Prop :=
+  forall cfg h,
+    c_hold cfg = true -> c_incl cfg = false ->
+    f_new (c_filter cfg) = true -> f_undo (c_filter cfg) = true -> f_irr (c_filter cfg) = true ->
+    disc_scope_b h = true ->
+    c02_statement cfg LNone h.
